@@ -102,6 +102,14 @@ def _slice_of_pattern(e, pat):
     return None
 
 
+class _nullctx(object):
+    def __enter__(self):
+        return None
+
+    def __exit__(self, *a):
+        return False
+
+
 def _lk_model(cx, port):
     """like_to_regex evaluated on every abstract LIKE pattern of at most four characters over {%, _, a literal character}: the result,
     as a sequence of regex constants and escaped / unescaped pattern characters, must be ^ + (escape(c) | . | .*)* + $.
@@ -116,7 +124,11 @@ def _lk_model(cx, port):
     mod = cx.engine_mod(port)
 
     class AbsStr(list):
-        pass
+        is_abs_str = True
+
+        def __getitem__(self, k):
+            r = list.__getitem__(self, k)
+            return AbsStr(r) if isinstance(k, slice) else r
 
     def on_call(ex, node, fname, recv, args):
         short = node.func.attr if isinstance(node.func, ast.Attribute) else fname
@@ -128,6 +140,17 @@ def _lk_model(cx, port):
                 seg = list(seg)
             if isinstance(seg, list):
                 return AX.Abs('Esc', seg=tuple(seg))
+        if short in ('endswith', 'endsWith', 'startswith', 'startsWith') and len(args) == 1 and isinstance(args[0], str) and isinstance(recv, (str, AX.Abs)) and not (isinstance(recv, AX.Abs) and recv.kind not in ('Text', 'Esc', 'Joined')):
+            # a test on the text built so far: decided when the text ends (starts) with constant characters; an escaped pattern
+            # character may or may not be the character asked for, so both answers are explored
+            seq = flat(recv)
+            end = short.lower() == 'endswith'
+            part = seq[-len(args[0]):] if end else seq[:len(args[0])]
+            if len(seq) >= len(args[0]) and all(isinstance(x, str) for x in part):
+                return ''.join(part) == args[0]
+            if len(seq) < len(args[0]):
+                return False
+            return ex.choose('literal-char-test', [False, True])
         if isinstance(recv, list) and short == 'charAt' and len(args) == 1 and isinstance(args[0], int):
             return recv[args[0]] if 0 <= args[0] < len(recv) else ''
         if isinstance(recv, list) and short in ('substring', 'slice') and 1 <= len(args) <= 2 and all(isinstance(a, int) for a in args):
@@ -135,7 +158,7 @@ def _lk_model(cx, port):
             b = max(0, min(args[1], len(recv))) if len(args) == 2 else len(recv)
             if short == 'substring' and a > b:
                 a, b = b, a
-            return list(recv[a:b])
+            return AbsStr(list.__getitem__(recv, slice(a, b)))
         return AX.NOT_HANDLED
 
     def flat(v):
@@ -169,18 +192,47 @@ def _lk_model(cx, port):
                 pat = AbsStr()
                 for k, c in enumerate(shape):
                     pat.append(c if c != 'L' else AX.Abs('Chr', id='c%d' % k, distinct=True))
-                ex = AX.Explorer(p, mod, on_call=on_call, max_choices=1, follow=False)
+                ex = AX.Explorer(p, mod, on_call=on_call, max_choices=4, follow=True)
                 runs, cut = ex.explore(fd, [pat])
-                if len(runs) != 1 or runs[0].outcome[0] != 'return':
+                if not runs or any(r_.outcome[0] != 'return' for r_ in runs):
                     cache[port] = None
                     return None
                 n += 1
-                got = flat(runs[0].outcome[1])
-                want = ['^']
-                for c in pat:
-                    want.extend(['.'] if c == '_' else (['.', '*'] if c == '%' else [('esc', c)]))
-                want.append('$')
-                same = len(got) == len(want) and all((a == b) if isinstance(a, str) and isinstance(b, str) else (isinstance(a, tuple) and isinstance(b, tuple) and a[0] == b[0] and a[1] is b[1]) for a, b in zip(got, want))
+                # with several runs (answers explored both ways) the first one that differs from the expected text is reported
+                want0 = ['^'] + [y for c in pat for y in (['.'] if c == '_' else (['.', '*'] if c == '%' else [('esc', c)]))] + ['$']
+                letters = {}
+
+                def _regex_text(seq):
+                    """the sequence as a concrete regular expression: each abstract literal stands for its own letter; None when an
+                    unescaped pattern character occurs (judged as taint, whatever the language)"""
+                    out = []
+                    for x in seq:
+                        if isinstance(x, str):
+                            out.append(x)
+                        elif x[0] == 'esc' and isinstance(x[1], AX.Abs):
+                            out.append(letters.setdefault(x[1].uid, 'abcdefgh'[len(letters) % 8]))
+                        elif x[0] == 'esc' and isinstance(x[1], str):
+                            out.append('\\' + x[1] if not x[1].isalnum() else x[1])
+                        else:
+                            return None
+                    return ''.join(out)
+
+                def _same(g_):
+                    if len(g_) == len(want0) and all((a == b) if isinstance(a, str) and isinstance(b, str) else (isinstance(a, tuple) and isinstance(b, tuple) and a[0] == b[0] and a[1] is b[1]) for a, b in zip(g_, want0)):
+                        return True
+                    # not the same text: the same language?  (`%%` may become one `.*`, `_%` may become `.*.` ...)
+                    ta, tb = _regex_text(g_), _regex_text(want0)
+                    if ta is None or tb is None or not (ta.startswith('^') and ta.endswith('$')):
+                        return False
+                    try:
+                        from .. import regexlang as R
+                        return R.compare(R.Lang(ta[1:-1], flavour='py'), R.Lang(tb[1:-1], flavour='py'))[0]
+                    except Exception:
+                        return False
+                bad_runs = [r_ for r_ in runs if not _same(flat(r_.outcome[1]))]
+                got = flat((bad_runs[0] if bad_runs else runs[0]).outcome[1])
+                want = list(want0)
+                same = not bad_runs
                 if same:
                     continue
                 shown = ''.join(shape).replace('L', 'x')
@@ -217,6 +269,11 @@ def _lk_model_report(cx, rep, port, category, key, good):
 
 
 def rule_lk_taint(cx, rep, port):
+    with rep.as_fallback('like_to_regex is outside the abstract interpreter') if (_lk_model(cx, port) is None and _escrepl_family(_fd(cx, port)[1], port) is None) else _nullctx():
+        return _rule_lk_taint(cx, rep, port)
+
+
+def _rule_lk_taint(cx, rep, port):
     """every piece of the pattern appended to the result passes through the escape function; only constants bypass it"""
     if _lk_model_report(cx, rep, port, 'taint', 'pattern text escaped', 'every character of the pattern other than _ and % reaches the result through the escape function'):
         return
@@ -268,6 +325,11 @@ def _concat_pieces(e):
 
 
 def rule_lk_map(cx, rep, port):
+    with rep.as_fallback('like_to_regex is outside the abstract interpreter') if (_lk_model(cx, port) is None and _escrepl_family(_fd(cx, port)[1], port) is None) else _nullctx():
+        return _rule_lk_map(cx, rep, port)
+
+
+def _rule_lk_map(cx, rep, port):
     """'_' -> '.', '%' -> '.*' and nothing else is special"""
     if _lk_model_report(cx, rep, port, 'map', 'wildcard translation', "'_' -> '.', '%' -> '.*', every other character stands for itself"):
         return
@@ -385,6 +447,7 @@ def _appended_const(body, acc):
 def rule_lk_anchor(cx, rep, port):
     p, fd = _fd(cx, port)
     if not _lk_model_report(cx, rep, port, 'anchor', 'anchors', 'result is ^...$'):
+      with rep.as_fallback('like_to_regex is outside the abstract interpreter') if _escrepl_family(fd, port) is None else _nullctx():
         acc, ret = _accum_var(fd)
         pieces = _concat_pieces(ret.value)
         consts = [x.value if isinstance(x, ast.Constant) else None for x in pieces]
@@ -437,6 +500,11 @@ def rule_lk_anchor(cx, rep, port):
 
 
 def rule_lk_part(cx, rep, port):
+    with rep.as_fallback('like_to_regex is outside the abstract interpreter') if (_lk_model(cx, port) is None and _escrepl_family(_fd(cx, port)[1], port) is None) else _nullctx():
+        return _rule_lk_part(cx, rep, port)
+
+
+def _rule_lk_part(cx, rep, port):
     """scan-and-flush: index +1 every iteration unconditionally; on a wildcard flush [p,i) and set p = i+1; final flush [p,end)"""
     if _lk_model_report(cx, rep, port, 'part', 'pattern partition', 'every character of the pattern contributes exactly once, in order'):
         return
